@@ -1,8 +1,11 @@
 #!/bin/sh
-# Build everything the checks need, offline, from files on disk.
+# Build everything the checks need, offline, from files on disk. (cwd /verif)
 set -e
 cd /verif
 export CARGO_NET_OFFLINE=true
-(cd harness && cargo build --offline 2>&1 | tail -2)
+(cd harness && cargo build --offline 2>&1 | tail -1)
+(cd harness && cargo build --offline --no-default-features --target-dir /verif/.build/cargo-nostd 2>&1 | tail -1)
+(cd harness && cargo build --offline --features serialize --target-dir /verif/.build/cargo-serialize 2>&1 | tail -1)
+(cd harness_sendsync && cargo build --offline 2>&1 | tail -1)
 python3 tools/gen_tables.py >/dev/null
-(cd lean && lake build driver TlsModel 2>&1 | tail -3)
+(cd lean && lake build driver TlsModel 2>&1 | tail -2)
